@@ -108,6 +108,9 @@ func (bw *BatchedWriter) startBatchWriter() {
 	bw.startStopMutex.Lock()
 	if !bw.running.Load() {
 		bw.running.Store(true)
+		// the WaitGroup is raised before the goroutine is started, otherwise a StopBatchWriter
+		// that runs before the goroutine's first statement passes Wait() with nothing written.
+		bw.writeWg.Add(1)
 		go bw.runBatchWriter()
 	}
 	bw.startStopMutex.Unlock()
@@ -161,8 +164,6 @@ func (bw *BatchedWriter) Flush() {
 
 // runBatchWriter collects objects in batches and persists them to the KVStore.
 func (bw *BatchedWriter) runBatchWriter() {
-	bw.writeWg.Add(1)
-
 	for bw.running.Load() || bw.scheduledCount.Load() != 0 {
 		batchedMutation, err := bw.store.Batched()
 		if err != nil {
